@@ -31,6 +31,8 @@ class ModelSearch:
             ans = self.p.stdout.readline().strip()
             if ans == "bad-args":
                 return None
+            if ans == "budget":
+                return "budget"
             if ans not in ("none", ""):
                 self.depth_hist[d] = self.depth_hist.get(d, 0) + 1
                 return ans.split(";")
@@ -233,6 +235,9 @@ async def conf_schedule(ex, spawn, settle):
         if new is None:
             ex.nonconformance = {"kind": "driver-rejected-encoding", "observation": obs}
             break
+        if new == "budget":
+            ex.search_abandoned = True        # the model search hit its state budget: no verdict for the rest of this schedule
+            break
         if not new:
             ex.nonconformance = {"kind": "no-model-run-matches", "previous_model_states": cands[:5], "observation": obs,
                                  "step": list(map(str, ex.trace[-1])), "flags": flags}
@@ -278,6 +283,8 @@ def run_conformance(ctx, rec, n_quick, n_thorough):
             rec.distinct.add(("sysconf", rt, tuple(map(str, ex.trace))))
             rec.dist["sys-conformance:schedules"] += 1
             rec.dist["sys-conformance:observations-matched"] += len(ex.observations) - (1 if ex.nonconformance else 0)
+            if getattr(ex, "search_abandoned", False):
+                rec.dist["sys-conformance:search-budget-exhausted"] += 1
             if ex.nonconformance:
                 rec.disagree("Sys conformance", {"runtime": rt, "cfg": cfg, "seed": seed, "nonconformance": ex.nonconformance,
                                                  "last_observations": [[list(map(str, t)), o] for t, o in ex.observations[-5:]],
